@@ -1073,6 +1073,212 @@ def ac12_saved_output_identity(fc: FnCls, R: RuleResult) -> int:
     return n
 
 
+# ---------------------------------------------------------------------------------------------------- AC13
+_FUNCTIONAL_PARAM_KW = {"quad": "params", "_mcquad": "fparams", "mcquad": "fparams", "solve_ivp": "params", "rootfinder": "params",
+                        "equilibrium": "params", "minimize": "params"}
+
+
+def _is_copy_call(e: ast.AST) -> bool:
+    """`<x>.clone().requires_grad_()` / `<x>.detach().requires_grad_()` (any order of clone/detach before requires_grad_)"""
+    if isinstance(e, ast.Call) and isinstance(e.func, ast.Attribute) and e.func.attr == "requires_grad_":
+        inner = e.func.value
+        chain = []
+        while isinstance(inner, ast.Call) and isinstance(inner.func, ast.Attribute):
+            chain.append(inner.func.attr)
+            inner = inner.func.value
+        return "clone" in chain or "detach" in chain
+    return False
+
+
+def ac13_independent_inputs(model: Model, fc: FnCls, R: RuleResult) -> int:
+    """The tensors w.r.t. which a backward pass differentiates the user's function must be fresh copies made in that backward pass
+    (`p.clone().requires_grad_()` when the graph is recorded, `p.detach().requires_grad_()` otherwise), never the saved tensors
+    themselves.  The saved tensors are the caller's tensors, with the caller's graph: if one of them depends on another (two
+    parameters computed from one tensor; a cotangent that depends on the result), torch.autograd.grad w.r.t. them includes that
+    outside dependence, and autograd adds it again when it propagates the gradients the backward returns - a wrong first-order
+    gradient.  Provenance of every `inputs` operand is traced through local definitions, free variables of enclosing functions,
+    tuples returned by local helpers and the parameter tuples handed to nested functionals."""
+    bw = fc.backward
+    mod = bw.module
+    family = [f for f in mod.functions.values() if f is bw or f.qualname.startswith(bw.qualname + ".")]
+    by_node = {f.node: f for f in family}
+    n = 0
+
+    def enclosing(fi):
+        return fi.parent if fi.parent is not None and (fi.parent is bw or fi.parent.qualname.startswith(bw.qualname)) else None
+
+    def returns_of(fi):
+        return [r.value for r in own_nodes(fi.node) if isinstance(r, ast.Return) and r.value is not None]
+
+    _rd_cache: Dict[str, tuple] = {}
+
+    def reaching(fi, name_node):
+        """the definitions of the name that reach the statement containing this occurrence (flow-sensitive; all definitions of the
+        function when the statement is not in its CFG)"""
+        from ..cfg import CFG
+        from ..flow import reaching_definitions
+        if fi.fq not in _rd_cache:
+            try:
+                cfg = CFG(fi.node)
+                _rd_cache[fi.fq] = (cfg, reaching_definitions(cfg, fi.params() + ([fi.vararg()] if fi.vararg() else [])))
+            except Exception:
+                _rd_cache[fi.fq] = (None, None)
+        cfg, IN = _rd_cache[fi.fq]
+        alldefs = function_defs(fi.node).get(name_node.id, [])
+        if cfg is None:
+            return alldefs
+        st = enclosing_stmt(name_node)
+        nodes = [n_ for n_ in cfg.nodes if n_.stmt is st]
+        if not nodes:
+            return alldefs
+        vals = set()
+        for n_ in nodes:
+            vals |= set(IN.get(n_.id, {}).get(name_node.id, ()))
+        out_ = [v for v in vals if isinstance(v, ast.AST)]
+        # a value defined by the statement kinds the CFG summarises as the statement itself (with / def)
+        return [v for v in out_ if isinstance(v, ast.expr)] or ([] if "param" in vals else alldefs)
+
+    FALSE, UNKNOWN = ("caller",), ("unknown",)
+
+    def sources(e, fi, depth, seen):
+        """where the value of name `e` (in function fi) can come from: list of (expr, scope) | FALSE (the caller's / saved tensors) |
+        UNKNOWN"""
+        key = (fi.fq, e.id)
+        if key in seen or depth > 12:
+            return []
+        seen.add(key)
+        out_ = []
+        ds = reaching(fi, e)
+        handled = set()
+        for st in own_nodes(fi.node):
+            if isinstance(st, ast.Assign) and isinstance(st.targets[0], ast.Tuple) and isinstance(st.value, ast.Call) and isinstance(st.value.func, ast.Name):
+                names = [t.id if isinstance(t, ast.Name) else None for t in st.targets[0].elts]
+                if e.id in names and any(d is st.value for d in ds):
+                    callee = next((g for g in family if g.name == st.value.func.id), None)
+                    handled.add(id(st.value))
+                    if callee is None:
+                        out_.append(UNKNOWN)
+                        continue
+                    k = names.index(e.id)
+                    for rv in returns_of(callee):
+                        out_.append((rv.elts[k], callee) if isinstance(rv, ast.Tuple) and k < len(rv.elts) else UNKNOWN)
+        for d in ds:
+            if id(d) in handled:
+                continue
+            out_.append((d, fi))
+        if not ds:
+            params = fi.params() + ([fi.vararg()] if fi.vararg() else [])
+            if e.id in params:
+                out_.extend(param_sources(fi, e.id, depth, seen))
+            else:
+                enc = enclosing(fi)
+                out_.extend(sources(e, enc, depth + 1, seen) if enc is not None else [UNKNOWN])
+        return out_
+
+    def param_sources(fi, pname, depth, seen):
+        enc = enclosing(fi)
+        if enc is None:
+            return [FALSE]                       # backward's own inputs are the caller's tensors
+        idx = fi.params().index(pname) if pname in fi.params() else None
+        found = []
+        for g in [g for g in family if g is enc or g.qualname.startswith(enc.qualname + ".")]:
+            for c in own_nodes(g.node):
+                if not isinstance(c, ast.Call):
+                    continue
+                if isinstance(c.func, ast.Name) and c.func.id == fi.name:
+                    if idx is not None and idx < len(c.args) and not any(isinstance(a, ast.Starred) for a in c.args[:idx + 1]):
+                        found.append((c.args[idx], g))
+                    elif pname == fi.vararg():
+                        found.append((ast.Tuple(elts=list(c.args[len(fi.params()):]), ctx=ast.Load()), g))
+                    else:
+                        found.append(UNKNOWN)
+                    continue
+                if any(isinstance(a, ast.Name) and a.id == fi.name for a in c.args):
+                    kw = _FUNCTIONAL_PARAM_KW.get(ast.unparse(c.func).split(".")[-1])
+                    tup = next((k.value for k in c.keywords if k.arg == kw), None) if kw else None
+                    if tup is not None and pname == fi.vararg():
+                        found.append((tup, g))
+                    else:
+                        found.append(UNKNOWN)
+        return found or [UNKNOWN]
+
+    def combine(rs):
+        if any(r is False for r in rs):
+            return False
+        return None if (not rs or any(r is None for r in rs)) else True
+
+    def fresh(e, fi, depth=0, seen=None) -> Optional[bool]:
+        """True: certainly fresh copies; False: certainly (partly) the saved / caller's tensors; None: cannot tell"""
+        seen = seen if seen is not None else set()
+        if depth > 14:
+            return None
+        if isinstance(e, ast.ListComp):
+            return True if _is_copy_call(e.elt) else None
+        if _is_copy_call(e):
+            return True
+        if isinstance(e, ast.Starred):
+            return fresh(e.value, fi, depth + 1, seen)
+        if isinstance(e, (ast.List, ast.Tuple)):
+            return combine([fresh(x, fi, depth + 1, seen) for x in e.elts]) if e.elts else True
+        if isinstance(e, ast.BinOp) and isinstance(e.op, ast.Add):
+            return combine([fresh(e.left, fi, depth + 1, seen), fresh(e.right, fi, depth + 1, seen)])
+        if isinstance(e, ast.Call) and ast.unparse(e.func) in ("list", "tuple") and len(e.args) == 1:
+            return fresh(e.args[0], fi, depth + 1, seen)
+        if isinstance(e, ast.Subscript):
+            if "saved_tensors" in ast.unparse(e.value):
+                return False
+            # a constant slice of a tuple display selects elements: `(grad, *copies)[1:]` is `copies`
+            sl = e.slice
+            if isinstance(sl, ast.Slice) and sl.step is None and isinstance(e.value, ast.Name):
+                lo = sl.lower.value if isinstance(sl.lower, ast.Constant) and isinstance(sl.lower.value, int) else (0 if sl.lower is None else None)
+                if lo is not None and lo >= 0 and sl.upper is None:
+                    rs = []
+                    for src in sources(e.value, fi, depth + 1, set(seen)):
+                        if src is FALSE:
+                            rs.append(False)
+                        elif src is UNKNOWN:
+                            rs.append(None)
+                        else:
+                            ex, sc = src
+                            if isinstance(ex, (ast.Tuple, ast.List)) and not any(isinstance(x, ast.Starred) for x in ex.elts[:lo]) and len(ex.elts) >= lo:
+                                rs.append(fresh(ast.Tuple(elts=list(ex.elts[lo:]), ctx=ast.Load()), sc, depth + 1, seen))
+                            else:
+                                rs.append(fresh(ex, sc, depth + 1, seen))
+                    return combine(rs)
+            return fresh(e.value, fi, depth + 1, seen)
+        if isinstance(e, ast.Attribute):
+            return False if "saved_tensors" in ast.unparse(e) else None
+        if isinstance(e, ast.Name):
+            rs = []
+            for src in sources(e, fi, depth + 1, set(seen)):
+                if src is FALSE:
+                    rs.append(False)
+                elif src is UNKNOWN:
+                    rs.append(None)
+                else:
+                    rs.append(fresh(src[0], src[1], depth + 1, seen))
+            return combine(rs)
+        return None
+
+    for f, c in grads_in_backward(fc):
+        inp = c.args[1] if len(c.args) > 1 else _kw(c, "inputs")
+        if inp is None:
+            continue
+        n += 1
+        r = fresh(inp, f)
+        what = "%s: autograd.grad(.., inputs=%s)" % (f.qualname.split(".")[-1], ast.unparse(inp)[:50])
+        if r is True:
+            R.ok(f.fq, what + ": fresh copies made in this backward pass on every path")
+        elif r is False:
+            R.bad(f, enclosing_stmt(c), "the function is differentiated w.r.t. the saved tensors themselves (`%s`) on some path: when those tensors depend on each other "
+                  "outside the function (parameters computed from a common tensor, a cotangent depending on the result) the dependence is counted here and again "
+                  "by autograd - the returned gradients are not partial derivatives; differentiate w.r.t. `.clone()` / `.detach()` copies" % ast.unparse(inp)[:60], what=what)
+        else:
+            # provenance not traceable with the patterns above: no verdict for this call (the other rules still run)
+            R.note("%s: provenance of `%s` not traceable - no verdict" % (f.fq, ast.unparse(inp)[:60]))
+    return n
+
+
 def hygiene_rules(model: Model, fc: FnCls, prop: str, min_copies: int = 1, min_opt: int = 2, min_conv: int = 0, min_idx: int = 0) -> List[RuleResult]:
     R9 = RuleResult(prop, "AC9", "differentiable copies in backward stay connected to the graph (clone, not detach) when the backward is recorded", min_instances=min_copies)
     RO = RuleResult(prop, "OPT", "backward options: set_default_option(forward options, bck_options); caller's dict never mutated", min_instances=min_opt)
@@ -1091,6 +1297,9 @@ def hygiene_rules(model: Model, fc: FnCls, prop: str, min_copies: int = 1, min_o
     ac11_wrapper_returns(model, fc, R11)
     ac11_forward_provenance(model, fc, R11)
     out.append(R11)
+    R13 = RuleResult(prop, "AC13", "pull-back inputs are fresh copies made in backward (partial derivatives), never the saved tensors themselves", min_instances=1)
+    ac13_independent_inputs(model, fc, R13)
+    out.append(R13)
     R12 = RuleResult(prop, "AC12", "a tensor created and saved by forward is returned as that very object (it must be the node's output to stay differentiable in a recorded backward)", min_instances=1)
     ac12_saved_output_identity(fc, R12)
     out.append(R12)
